@@ -56,6 +56,7 @@ type jobResult struct {
 // 5s
 func (j *job) Run() {
 	verifhook.Go(j, "job.run")
+	defer verifhook.Done(j, "job.run")
 	ticket := j.runner.raffle.borrowTicket(j)
 	if ticket == nil {
 		if j.pipeline.isFullSync() { // reschedule to try again in a bit
